@@ -127,7 +127,7 @@ func (e *Engine) verifyFunction(name string) error {
 			st.assumeAllocated(v)
 			if i == 0 && fn.Signature.Recv() != nil {
 				if _, isPtr := p.Type().Underlying().(*types.Pointer); isPtr {
-					st.assume(fmt.Sprintf("(> %s 1000)", v.C[0]))
+					st.assume(fmt.Sprintf("(not (= %s 0))", v.C[0]))
 					st.nonnil[v.C[0]] = true
 				}
 			}
@@ -138,7 +138,7 @@ func (e *Engine) verifyFunction(name string) error {
 			v := st.freshVal("fv."+fv.Name(), fv.Type())
 			st.assumeAllocated(v)
 			if _, isPtr := fv.Type().Underlying().(*types.Pointer); isPtr {
-				st.assume(fmt.Sprintf("(> %s 1000)", v.C[0]))
+				st.assume(fmt.Sprintf("(not (= %s 0))", v.C[0]))
 				st.nonnil[v.C[0]] = true
 			}
 			bindings = append(bindings, v)
@@ -309,7 +309,9 @@ func (st *State) havocNewOnly(pat, preAlloc string) {
 	st.havoc(pat)
 	for _, k := range ks {
 		nw := st.arr(k.name, k.sort)
-		st.assume(fmt.Sprintf("(forall ((b Int)) (! (=> (select %s b) (= (select %s b) (select %s b))) :pattern ((select %s b))))", preAlloc, nw, k.old, nw))
+		ax := fmt.Sprintf("(forall ((b Int)) (! (=> (< b %s) (= (select %s b) (select %s b))) :pattern ((select %s b))))", preAlloc, nw, k.old, nw)
+		st.assume(ax)
+		st.frameAxioms = append(st.frameAxioms, ax)
 	}
 }
 
